@@ -209,15 +209,15 @@ class Sim:
         order = self.sweep(set())
         return 'e ;' + ''.join(f' {x}' for x in order)
 
-def gen_history(rng, primes, nops, mode=None, ordered=None, stops=False, nslots_used=None, chain_bias=0.35, maxlive=120):
+def gen_history(rng, primes, nops, mode=None, ordered=None, stops=False, nslots_used=None, chain_bias=0.35, maxlive=120, keep=0.7):
     """one history (list of op lines) + coverage"""
     mode = mode or ('thread' if rng.random() < 0.3 else 'main')
-    ordered = (rng.random() < 0.8) if ordered is None else ordered
+    ordered = (rng.random() < 0.75) if ordered is None else ordered
     sim = Sim(ordered, primes)
     lines = [f"H {mode} {'ord' if ordered else 'uno'}"]
     next_id = [0]
     # arena slots: a small window makes addresses collide modulo the small primes; sometimes multiples of 55 = 5*11
-    window = nslots_used or rng.choice([16, 40, 120, 400, 4000])
+    window = nslots_used or rng.choice([40, 120, 400, 4000] if maxlive <= 150 else [400, 1200, 4000, 16000])
     stride_choice = rng.choice([1, 1, 1, 5, 11, 55])
     free_slots = [(i * stride_choice) % NARENA for i in range(window)]
     free_slots = list(dict.fromkeys(free_slots))
@@ -262,9 +262,9 @@ def gen_history(rng, primes, nops, mode=None, ordered=None, stops=False, nslots_
             oid = fresh()
             lines.append(sim.new(oid, kind, how, slot, owned))
             # the program keeps the new object (mostly); an owned object is from now on reached through its owner
-            keep = [h for h in sim.held if h != owned]
-            if how == 'w' or rng.random() < 0.7: keep.append(oid)
-            set_held(keep)
+            kept = [h for h in sim.held if h != owned]
+            if how == 'w' or rng.random() < keep: kept.append(oid)
+            set_held(kept)
         elif r < 0.60 and live_tops:
             # explicit deletion of a top (never an owned object, never twice)
             x = rng.choice(live_tops)
@@ -295,10 +295,10 @@ def gen_history(rng, primes, nops, mode=None, ordered=None, stops=False, nslots_
             lines.append(sim.gc())
         elif r < 0.90:
             # the program drops / keeps pointers
-            keep = [h for h in sim.held if rng.random() < 0.6]
+            kept = [h for h in sim.held if rng.random() < max(0.6, keep)]
             for t in live_tops:
-                if t not in keep and t not in sim.deleted and rng.random() < 0.15: keep.append(t)
-            set_held(keep)
+                if t not in kept and t not in sim.deleted and rng.random() < 0.15: kept.append(t)
+            set_held(kept)
         elif stops and r < 0.96:
             if sim.running: sim.running = False; lines.append('s')
             else: sim.running = True; lines.append('t')
@@ -347,7 +347,7 @@ def _nontrivial(cov):
 
 class C06(Spec):
     id = 'C06'; engine = 'life'; harness = 'h_life'; driver = 'drv_life'
-    generators = ()
+    generators = ('Life',)
     harness_flags = ('-Wl,--wrap=free',)
     harness_timeout = 300
     technique = ('Lean 4 proof by induction over histories with a nested induction over destructor cascades: model of '
@@ -383,20 +383,22 @@ class C06(Spec):
         primes = gc_primes()
         quick = tier == 'quick'
         cs = []
-        nh = (48 if quick else 1500) * boost
-        per = 6 if quick else 25
+        nh = (60 if quick else 6000) * boost
+        per = 6 if quick else 50
         hs = []
         for i in range(nh):
             nops = rng.choice([20, 40, 80, 120] if quick else [40, 120, 300, 600])
             stops = rng.random() < 0.25
-            lines, cov, _ = gen_history(rng, primes, nops, stops=stops, maxlive=120 if quick else 400)
+            big = (not quick) and i % 25 == 0      # large registries: most objects stay reachable
+            if big: lines, cov, _ = gen_history(rng, primes, 1500, stops=stops, maxlive=500, keep=0.97, chain_bias=0.3)
+            else: lines, cov, _ = gen_history(rng, primes, nops, stops=stops, maxlive=120 if quick else 300, keep=rng.choice([0.5, 0.7, 0.9]))
             hs.append((lines, cov))
         for i in range(0, len(hs), per):
             chunk = hs[i:i+per]
             cs.append(Case(f'rand{i//per}', [l for h, _ in chunk for l in h], meta={'hist': [(hash('\n'.join(h)), c) for h, c in chunk]}))
         # chains under address permutations
         ch = []
-        nperm = (4 if quick else 60) * boost
+        nperm = (4 if quick else 120) * boost
         for depth in range(2, 7):
             for via in 'cgde':
                 for how_top in 'srw':
